@@ -561,7 +561,7 @@ package jet
 //@   loop 1 invariant [defer] deferred(0) == inNewScope
 //@   loop 1 invariant [ctx] context == old(st.context) && (valVarSlot >= 0 ==> st.context == context)
 //@   loop 1 invariant [scope] ite(isLet, st.scope.parent != nil && ite(inNewScope, st.scope.parent.parent == old(st.scope), st.scope.parent == old(st.scope)), ite(inNewScope, st.scope.parent == old(st.scope), st.scope == old(st.scope)))
-//@   loop 0 monotone [return-value-kept] {C09} RvValid(returnValue)
+//@   loop 0 step [only-a-return-statement-replaces-the-value-of-an-earlier-return] {C09} NTF(list.Nodes[prev(i)]) != NodeReturn ==> returnValue == prev(returnValue) || RvValid(returnValue)
 //@   loop 0 step [if-renders-exactly-one-branch] {C05,C03} NTF(list.Nodes[prev(i)]) == NodeIf ==> ite(lastret("isTrue", 0), visits("(*Runtime).executeList", 0) == prev(visits("(*Runtime).executeList", 0)) + 1 && visits("(*Runtime).executeList", 1) == prev(visits("(*Runtime).executeList", 1)), visits("(*Runtime).executeList", 0) == prev(visits("(*Runtime).executeList", 0)) && visits("(*Runtime).executeList", 1) == prev(visits("(*Runtime).executeList", 1)) + ite(as(list.Nodes[prev(i)], "*IfNode").ElseList != nil, 1, 0))
 //@   loop 1 step [range-body-once-per-element] {C05} visits("(*Runtime).executeList", 2) == prev(visits("(*Runtime).executeList", 2)) + 1 && visits("(Ranger).Range", 1) == prev(visits("(Ranger).Range", 1)) + 1
 //@   loop 1 invariant [range-slots] {C05} ite(!isSet, valVarSlot == -1, ite(len(node.Set.Left) > 1, keyVarSlot == 0 && valVarSlot == 1 && lastret("(Ranger).ProvidesIndex", 0), ite(lastret("(Ranger).ProvidesIndex", 0), keyVarSlot == 0 && valVarSlot == -1, keyVarSlot == -1 && valVarSlot == 0)))
